@@ -410,3 +410,30 @@ def value_items(path):
         scan_gap(pos, hi, trail)
     walk(0, len(toks), [])
     return out
+
+
+# ---------------------------------------------------------------------------------------------------------------------
+# CRATE MANIFESTS.  Which cfg-gated items are compiled (io-uring vs. tokio arbiters, unix vs. non-unix signal handling,
+# the TLS back ends) is decided by Cargo features and dependencies; the Verus units select the cfg variants of the
+# recorded configuration.  The manifests are hashed (comments and blank lines stripped): when the Cargo.toml of a crate a
+# property's files live in — or the workspace manifest — differs, the check answers UNDECIDED.
+def manifest_hashes(repo, files):
+    out = {}
+    crates = sorted({f.split("/")[0] for f in files if "/" in f})
+    for c in crates + ["."]:
+        p = os.path.join(repo, c, "Cargo.toml") if c != "." else os.path.join(repo, "Cargo.toml")
+        if os.path.exists(p):
+            txt = "\n".join(l.split("#")[0].rstrip() if not re.search(r'["\']', l.split("#")[0]) or "#" not in l else l.rstrip()
+                            for l in open(p).read().split("\n"))
+            txt = re.sub(r"\n\s*\n+", "\n", txt).strip()
+            out[c] = hashlib.sha256(txt.encode()).hexdigest()[:16]
+    return out
+
+
+def modified_manifests(pid, repo, cfg, props):
+    inv = load().get("__manifests__", {})
+    if not inv:
+        return []
+    files = files_of_property(pid, cfg, props)
+    cur = manifest_hashes(repo, files)
+    return [("Cargo.toml" if c == "." else c + "/Cargo.toml") for c, h in cur.items() if c in inv and inv[c] != h]
